@@ -3,6 +3,8 @@ package processor
 //gosx:file init=github.com/free5gc/chf/cdr/asn replay=engine
 
 import (
+	"github.com/gin-gonic/gin"
+
 	charging_datatype "github.com/free5gc/chf/ccs_diameter/datatype"
 	chf_context "github.com/free5gc/chf/internal/context"
 	vx "github.com/free5gc/chf/zzvx"
@@ -164,5 +166,89 @@ func ZZ_C01_TwoGroups() {
 	for i := 0; i < 2; i++ {
 		after := zzBalance(zzSupi, t.rg[i])
 		vx.Assert("credit conserved per rating group", after+ue.ReservedQuota[t.rg[i]] == t.q[i]+t.reserved[i]-t.cost*int64(t.used[i]))
+	}
+}
+
+// C01 over histories, through the real request handlers: a fresh account, two
+// sessions A and B of one subscriber that share a rating group, then up to N
+// operations, each one of: update of A, update of B, release of B (once),
+// an account recharge of an arbitrary amount followed by the recharge
+// notification. After every operation
+//
+//	balance + reservation held = initial balance + recharges - cost x online usage reported
+//
+// Bounds: N = 2 (thorough 3), balance and recharges < 2^20, volumes < 128
+// (one INTEGER length class, so that record encoding does not fork), unit
+// cost 1 or 2, one usage entry with one online container per request.
+//
+//gosx:property=C01 tier=quick shards=8 unwind=40 timeout=30000 p.steps=2 p.steps.thorough=3 maxseconds=900 maxseconds.thorough=3000
+func ZZ_C01_History() {
+	p := zzSetup()
+	rg := int32(1)
+	q := vx.Int64("balance")
+	vx.Assume(q >= 0)
+	vx.Assume(q < 1<<20)
+	shard := vx.Param("shard", 0)
+	sharded := vx.Param("nshards", 1) == 8
+	cost := int64(1)
+	if sharded {
+		cost = []int64{1, 2}[shard&1]
+	} else {
+		cost = []int64{1, 2}[vx.Choice("cost", 2)]
+	}
+	zzAccount(zzSupi, rg, q, cost)
+	refA, _ := zzCreate(p, "A", zzSupi)
+	refB, _ := zzCreate(p, "B", zzSupi)
+	ue, found := chf_context.GetSelf().ChfUeFindBySupi(zzSupi)
+	if !found {
+		vx.Fail("subscriber context exists")
+		return
+	}
+	credited, spent := q, int64(0)
+	releasedB := false
+	for i := 0; i < vx.Param("steps", 3); i++ {
+		l := "s" + string(rune('0'+i))
+		var op int
+		if i == 0 && sharded {
+			op = shard >> 1 // the first operation is fixed per shard
+		} else {
+			op = vx.Choice(l+".op", 4)
+		}
+		if op == 2 && releasedB {
+			op = 1
+		}
+		if op == 3 {
+			amount := vx.Int64(l + ".recharge")
+			vx.Assume(amount >= 0)
+			vx.Assume(amount < 1<<20)
+			zzAccount(zzSupi, rg, zzBalance(zzSupi, rg)+amount, cost)
+			credited += amount
+			p.NotifyRecharge(zzSupi, rg)
+		} else {
+			u, _ := zzUsageInd(l, rg, 1, 1)
+			zzSmallUsage(&u)
+			u.UsedUnitContainer[0].QuotaManagementIndicator = models.QuotaManagementIndicator_ONLINE_CHARGING
+			req := models.ChfConvergedChargingChargingDataRequest{SubscriberIdentifier: zzSupi,
+				MultipleUnitUsage: []models.ChfConvergedChargingMultipleUnitUsage{u}}
+			c := &gin.Context{}
+			switch {
+			case op == 0:
+				p.HandleChargingdataUpdate(c, req, refA)
+				vx.Assert("update answered 200", vx.HTTPStatus(c) == 200)
+			case op == 1 && !releasedB:
+				p.HandleChargingdataUpdate(c, req, refB)
+				vx.Assert("update answered 200", vx.HTTPStatus(c) == 200)
+			case op == 1:
+				p.HandleChargingdataUpdate(c, req, refA)
+				vx.Assert("update answered 200", vx.HTTPStatus(c) == 200)
+			default:
+				p.HandleChargingdataRelease(c, req, refB)
+				vx.Assert("release answered 204", vx.HTTPStatus(c) == 204)
+				releasedB = true
+			}
+			spent += int64(u.UsedUnitContainer[0].TotalVolume) * cost
+		}
+		vx.Assert("credit conserved over the history: balance + reservation = credited - cost x online usage",
+			zzBalance(zzSupi, rg)+ue.ReservedQuota[rg] == credited-spent)
 	}
 }
